@@ -308,6 +308,9 @@ class Guards:
                 {C + '.has_norm_cased_file'}, 'F', role='new')]
             req['NOT_CACHE_FILE'] = [self.m_call(
                 {R.executor + '.is_cache_file'}, 'F')]
+            dtm = R.builder + '._dirs_to_make'
+            req['PARENTS_MAKEABLE'] = [
+                ('node', lambda sn: Q.is_done(sn, dtm))]
         if kind == 'nested_sub':
             req['KEY_FREE'] = [self.m_call(
                 {C + '.has_subbuild'}, 'F', role='new')]
@@ -325,6 +328,8 @@ class Guards:
     def check_requirement(self, d, matchers):
         """None if the requirement holds; else a witness path."""
         sg = self.graph(d)
+        nodems = [m[1] for m in matchers if isinstance(m, tuple)]
+        matchers = [m for m in matchers if not isinstance(m, tuple)]
 
         def edge_ok(a, b, lab):
             if isinstance(lab, tuple) and len(lab) == 4 and \
@@ -334,7 +339,8 @@ class Guards:
                         return False
             return True
         pos = self.positive_exits(sg)
-        seen = sg.reach([sg.entry], edge_ok=edge_ok)
+        avoid = (lambda sn: any(p(sn) for p in nodems)) if nodems else None
+        seen = sg.reach([sg.entry], edge_ok=edge_ok, avoid=avoid)
         for p in pos:
             if p in seen:
                 return sg.describe_path(sg.witness(seen, p))
